@@ -228,6 +228,10 @@ impl<S: BuildHasher + Clone + 'static> ExpirationMap<S> {
         Ok(items)
     }
 
+    pub fn clear(&self) {
+        self.buckets.write().clear();
+    }
+
     pub fn hasher(&self) -> S {
         self.hasher.clone()
     }
